@@ -4,6 +4,7 @@
 import Gmars.Model.Compile
 import Gmars.Spec.Legal88
 import Gmars.Proofs.LoadOK
+import Gmars.Proofs.CompileWF
 
 namespace Gmars.Props.C06
 open Gmars
@@ -19,5 +20,33 @@ theorem table88_uses_88_only (op : Op) (am bm : Mode) (md : Modifier) (h : Spec.
 theorem validate88_is_table (op : Op) (am bm : Mode) (ha : Spec.mode88 am = true) (hb : Spec.mode88 bm = true) :
     getOpModeAndValidate88 op am bm = Spec.implied88 op am bm :=
   validate88_eq op am bm ha hb
+
+/-- `compile_wf` — for EVERY list of source lines, every metadata and every configuration with a
+    core below 2^63 cells: whenever the compiler stage succeeds, every field of every instruction
+    is below the core size, the entry point lies inside the code (or is zero for an empty program)
+    and the program is no longer than the configured maximum length. Because the statement
+    quantifies over all source-line lists it needs no fact about lexer or parser. -/
+theorem compile_wf {lexTokens : String → List Token} {cfg : Config} {lines : List SourceLine}
+    {ameta : AsmMeta} {w : WarriorData}
+    (h : compile lexTokens cfg lines ameta = .ok (some w)) (h63 : cfg.coreSize.toNat < 2 ^ 63) :
+    (∀ i ∈ w.code.toList, i.a < cfg.coreSize ∧ i.b < cfg.coreSize) ∧
+    ((w.code.size = 0 ∧ w.start = 0) ∨ (0 ≤ w.start ∧ w.start < w.code.size)) ∧
+    w.code.size ≤ cfg.length.toNat :=
+  Compile.compile_wf h h63
+
+/-- `compile_88_legal` — under the ICWS'88 rule set every instruction of an accepted program is in
+    the independently written table of legal '88 instructions, with the implied modifier
+    (lone-operand DAT included) -/
+theorem compile_88_legal {lexTokens : String → List Token} {cfg : Config} {lines : List SourceLine}
+    {ameta : AsmMeta} {w : WarriorData}
+    (h : compile lexTokens cfg lines ameta = .ok (some w)) (h88 : cfg.mode = .icws88) :
+    ∀ i ∈ w.code.toList, Spec.Legal88 i = true :=
+  Compile.compile_88_legal h h88
+
+/-
+  The 2^63 bound of `compile_wf` is tight: with coreSize = 3·2^62 (accepted by Validate) `int(m)`
+  is negative in Go and `dat -5` assembles to a field above the core size
+  (`Compile.reduceMod_counterexample`). Such a core cannot be allocated.
+-/
 
 end Gmars.Props.C06
